@@ -68,5 +68,5 @@ def summarize(ctx, progs, recs, H, maxbits, prop, nontrivial_extra=None):
 
 def replay(ctx, payload):
     inp = payload['input']
-    r = s4.compare(ctx, [inp['rules']], inp.get('H', 3), inp.get('maxbits', 12))[0]
+    r = s4.compare(ctx, [inp['rules']], inp.get('H', 3), inp.get('maxbits', 12), default_config=bool(inp.get('default_config')))[0]
     return r['status'] in ('differ', 'implerror')
